@@ -90,13 +90,13 @@ package baseorbitdb
 //@   ensures storesCreated(0) == old(storesCreated(0)) + 1
 //@   modifies storesCreated(0)
 //@ func (*orbitDB).createStore
-//@   props C09 C03 C05 C14
+//@   props C09 C03 C05 C14 C04
 //@   flag nilcalls
 //@   requires wfo(o) && options != nil && parsedDBAddress != nil
 //@   requires options.AccessController != nil ==> ref(options.AccessController) != 0
 //@   ghost A0 := options.AccessControllerAddress
 //@   ensures result1 == nil ==> result != nil && stAddrOf(result) == parsedDBAddress
-//@   ensures @C09 @C05 result1 == nil ==> stCacheOf(result) == cacheFor(o.cache, o.directory, addrStr(parsedDBAddress))
+//@   ensures @C09 @C05 @C04 result1 == nil ==> stCacheOf(result) == cacheFor(o.cache, o.directory, addrStr(parsedDBAddress))
 //@   ensures @C03 @C14 result1 == nil && pcall("strings.TrimPrefix", A0, "/ipfs/") != "" ==> stACOf(result) == acResolved(pcall("strings.TrimPrefix", A0, "/ipfs/"))
 //@   ensures storesCreated(0) == old(storesCreated(0)) || storesCreated(0) == old(storesCreated(0)) + 1
 //@   ensures result1 == nil ==> storesCreated(0) == old(storesCreated(0)) + 1
